@@ -395,3 +395,29 @@ pub proof fn thm_c06_mounted_on_matching_span_only(recs: Seq<RecV>, d: DMap, r: 
 {
     assert(recs.push(r).drop_last() =~= recs);
 }
+
+// ---------------------------------------------------------------------------
+// C08 over histories: "after a trace's root has finished and a collector cycle has run, the
+// collector retains nothing for that trace" -- two consecutive cycles.  NOT PROVABLE, and rightly
+// so: nothing prevents the second batch from containing a StartCollect for the finished id, and
+// the real collector does receive such batches (the per-thread queues are drained one after
+// another, so a StartCollect can arrive one cycle after the CommitCollect that happened-after it
+// on another thread: findings/D7 reproduces it on the real code).  Kept as an obligation so that
+// the check keeps reporting it; listed in known_findings.json, where it is printed as
+// KNOWN-FINDING instead of VIOLATION.
+// ---------------------------------------------------------------------------
+pub proof fn thm_c08_finished_trace_stays_forgotten(a: ActMap, b1: Batch, b2: Batch, cancelable: bool, ks1: Seq<usize>, ks2: Seq<usize>, anchor1: Anchor, anchor2: Anchor, c: usize)
+    requires b1.commits.contains(c),
+    ensures !cy_final_act(cy_final_act(a, b1, cancelable, ks1, anchor1), b2, cancelable, ks2, anchor2).contains_key(c),
+{
+}
+
+// the same statement under the assumption the code would need (a consistent cut: no StartCollect
+// of c after its commit was processed) does hold:
+pub proof fn thm_c08_finished_trace_stays_forgotten_given_consistent_cut(a: ActMap, b1: Batch, b2: Batch, cancelable: bool, ks1: Seq<usize>, ks2: Seq<usize>, anchor1: Anchor, anchor2: Anchor, c: usize)
+    requires b1.commits.contains(c), !b2.starts.contains(c),
+    ensures !cy_final_act(cy_final_act(a, b1, cancelable, ks1, anchor1), b2, cancelable, ks2, anchor2).contains_key(c),
+{
+    thm_c08_retained_traces(a, b1, cancelable, ks1, anchor1);
+    thm_c08_retained_traces(cy_final_act(a, b1, cancelable, ks1, anchor1), b2, cancelable, ks2, anchor2);
+}
